@@ -59,6 +59,9 @@ type ienc struct {
 	// path through a multi-block top-level function (branches become assumptions)
 	path     []*ssa.BasicBlock
 	pathDesc string
+	// slice mode (intexpr): only these instructions of the top-level function are encoded, up to stopAt
+	only   map[ssa.Instruction]bool
+	stopAt ssa.Value
 }
 
 // blockPaths enumerates the acyclic entry-to-return paths of fn (nil if cyclic or too many).
@@ -182,6 +185,11 @@ func (e *ienc) encode(fn *ssa.Function, args []string, ctx string) string {
 		}
 	}
 	for _, in := range instrs {
+		if ctx == "" && e.only != nil {
+			if !e.only[in] {
+				continue
+			}
+		}
 		switch in := in.(type) {
 		case *ssa.DebugRef, *ssa.Jump:
 		case *ssa.Phi:
@@ -277,6 +285,9 @@ func (e *ienc) encode(fn *ssa.Function, args []string, ctx string) string {
 			e.unsupp = fmt.Sprintf("%s: instruction %T not supported by intenc", fn.Name(), in)
 			return "0"
 		}
+	}
+	if ctx == "" && e.stopAt != nil {
+		return e.val(e.stopAt)
 	}
 	e.unsupp = "no return"
 	return "0"
